@@ -14,6 +14,7 @@ from mitmproxy.http import Headers
 from mitmproxy.net.http.http1 import read as h1read
 from mitmproxy.http import _native as http_native, _always_bytes as http_always_bytes
 from h11._receivebuffer import ReceiveBuffer
+from mitmproxy.coretypes.multidict import MultiDict, MultiDictView
 
 MAXOBJ = 3
 # op -> argument shape after [op, t, s]:  k = key hex, v = value hex, V = list of value hex, i = int, u = object index,
@@ -23,6 +24,10 @@ SHAPES = {
     "it": "", "ln": "", "eq": "u", "cp": "", "im": "", "is": "", "ks": "m", "vs": "m", "po": "k", "pi": "",
     "sd": "kv", "cl": "", "up": "P", "by": "",
 }
+# kind "view": the sibling classes that share _MultiDict's code (MultiDict, MultiDictView) — str keys and values,
+# exact-key comparison, first-value lookup.  op -> argument shape (k/v = `u<code points>`, V = list, i = int)
+VSHAPES = {"ga": "k", "gi": "k", "di": "k", "si": "kv", "ad": "kv", "in": "ikv", "sa": "kV", "it": "", "ln": ""}
+VTARGETS = ("holder", "multidict", "query", "cookies")
 MUTATORS = ("si", "sa", "di", "ad", "in", "po", "pi", "sd", "cl", "up", "cp")
 QUERIES = ("gi", "ge", "ga", "co", "it", "ln", "eq", "im", "is", "ks", "vs", "by")
 
@@ -166,7 +171,7 @@ class Check(PropertyCheck):
             "point lists around every encoder boundary. rt cases: RFC-valid field lists (70%), single-byte mutations (20%), "
             "raw (10%). rd cases: random line lists incl. empty lines, continuation lines, missing colon. distinct = distinct "
             "case; non-trivial = at least one mutating op or kwargs (seq) / non-empty input (others).")
-    budget = {"quick": 20000, "thorough": 600000}
+    budget = {"quick": 23000, "thorough": 660000}
     time_budget = {"quick": 15, "thorough": 420}
     fingerprints = [
         "mitmproxy.coretypes.multidict:_MultiDict.__getitem__", "mitmproxy.coretypes.multidict:_MultiDict.__setitem__",
@@ -204,6 +209,7 @@ class Check(PropertyCheck):
         rng = Rng(424242)
         for i in range(400):
             c = self._rand_seq(rng) if i % 4 else (self._rt(rng) if i % 8 else self._rd(rng))
+            if i % 5 == 0: c = self._view_case(rng)
             if c["kind"] == "seq":
                 assert len(self._norm_ops(c)) == len(c["ops"]), ("generated op dropped", c)
             self.impl(c)                                # a Skip would propagate and end the run
@@ -359,10 +365,69 @@ class Check(PropertyCheck):
         for c in (0, 0x7f, 0x80, 0x7ff, 0x800, 0xd7ff, 0xd800, 0xdc7f, 0xdc80, 0xdcff, 0xdd00, 0xdfff, 0xe000, 0xffff, 0x10000, 0x10ffff):
             yield {"kind": "enc", "cps": "%x" % c}
 
+    # ---- kind "view" (own random stream: the cases of the other kinds stay exactly what they were) ----
+    def _view_arg(self, rng, target, value):
+        if target in ("query", "cookies"):
+            # only texts the parent's codec (url.encode/decode, cookie header) is known to give back unchanged: whether
+            # getter(setter(fs)) == fs holds beyond them is property C34's question, not this check's
+            pool = ["a", "A", "b", "k1", "Set", "x"] if not value else ["1", "2", "v3", "A", "a", ""]
+            # request.cookies is modelled WITH its codec (C34's cookie header model as getter/setter), so values that need
+            # quoting are fair game there; names stay cookie names (the class `request_cookies_view_refines` is proved for)
+            if value and target == "cookies": pool = pool + ["x;y", "a b", "q\"q", "a=b", "\xe9", "t\\"]
+            return "u" + cps(rng.pick(pool))
+        pool = ["a", "A", "b", "", "\xe9", "\xc9", "a b", "a=b", "x;y", "\udcff", "\U0001f600", "k&1"]
+        return "u" + cps(rng.pick(pool[:3]) if rng.chance(0.6) else rng.pick(pool))
+
+    def _view_op(self, rng, target):
+        o = rng.pick(["ga", "gi", "di", "si", "si", "ad", "ad", "in", "sa", "sa", "it", "ln"])
+        op = [o]
+        for c in VSHAPES[o]:
+            if c == "k": op.append(self._view_arg(rng, target, False))
+            elif c == "v": op.append(self._view_arg(rng, target, True))
+            elif c == "V": op.append([self._view_arg(rng, target, True) for _ in range(rng.pick([0, 1, 1, 2, 3]))])
+            elif c == "i": op.append(rng.randint(-5, 5) if rng.chance(0.9) else rng.pick([-100, 100]))
+        return op
+
+    def _view_case(self, rng):
+        target = rng.pick(VTARGETS)
+        init = [[self._view_arg(rng, target, False), self._view_arg(rng, target, True)] for _ in range(rng.pick([0, 1, 2, 3, 4]))]
+        return {"kind": "view", "target": target, "init": init, "ops": [self._view_op(rng, target) for _ in range(rng.randint(1, 8))]}
+
+    def _ctor_case(self, rng):
+        """Headers(fields, **kwargs) with fields that may contain str (TypeError) — kind "ctor" """
+        def a(value):
+            b = self._rand_value(rng) if value else self._rand_name(rng)
+            return ("u" + cps(b.decode("utf-8", "surrogateescape"))) if rng.chance(0.12) else hx(b)
+        case = {"kind": "ctor", "fields": [[a(False), a(True)] for _ in range(rng.pick([0, 1, 2, 3]))]}
+        if rng.chance(0.4):
+            kn = ["a_b", "A", "set_cookie", "x"]
+            case["kw"] = [["u" + (self._rand_cps(rng) if rng.chance(0.1) else cps(k)),
+                           ("u" + self._rand_cps(rng)) if rng.chance(0.1) else hx(self._rand_value(rng))]
+                          for k in rng.sample(kn, rng.randint(1, 2))]
+        return case
+
+    def _view_scope(self):
+        al = [["si", "u61", "u39"], ["si", "u41", "u39"], ["sa", "u61", ["u37", "u38"]], ["sa", "u61", []], ["di", "u61"], ["di", "u41"],
+              ["ad", "u61", "u35"], ["in", 1, "u62", "u34"], ["in", -1, "u41", "u34"]]
+        probe = [["gi", "u61"], ["ga", "u61"], ["gi", "u41"], ["it"], ["ln"]]
+        init = [["u61", "u31"], ["u41", "u32"], ["u61", "u33"]]
+        for target in VTARGETS:
+            for d in (0, 1, 2):
+                for seq in itertools.product(al, repeat=d):
+                    yield {"kind": "view", "target": target, "init": init, "ops": [list(o) for o in seq] + probe}
+
     def generate(self, rng, tier):
+        from common.prng import Rng
+        import zlib
+        vrng = Rng(zlib.crc32(str(rng.getstate()[1][:8]).encode()))     # derived without drawing from `rng`
+        yield from self._view_scope()
         yield from self._codec_scope(tier)
         yield from self._small_scope(3 if tier == "quick" else 4)
+        n = 0
         while True:
+            n += 1
+            if n % 10 == 0: yield self._view_case(vrng)
+            if n % 40 == 0: yield self._ctor_case(vrng)
             r = rng.random()
             if r < 0.6: yield self._rand_seq(rng)
             elif r < 0.75: yield self._rt(rng)
@@ -453,12 +518,113 @@ class Check(PropertyCheck):
             b = unhx(case["data_hex"])
             st = http_native(b)
             return {"native": "u" + cps(st), "back": hx(http_always_bytes(st))}
+        if kind == "view":
+            return self._view_impl(case)
+        if kind == "ctor":
+            try:
+                h = Headers([(arg_obj(k, 0), arg_obj(v, 0)) for k, v in case["fields"]],
+                            **({uncps(n[1:]): arg_obj(v, 1) for n, v in case["kw"]} if case.get("kw") else {}))
+            except TypeError:
+                return {"ctor": "typeerror"}
+            except UnicodeEncodeError:
+                return {"ctor": "unicodeerror"}
+            except Exception as e:
+                return {"ctor": "exc:" + type(e).__name__}
+            return {"ctor": "ok " + r_fields(h.fields)}
         if kind == "enc":                               # _always_bytes on an arbitrary str
             try:
                 return {"enc": "b" + hx(http_always_bytes(uncps(case["cps"])))}
             except UnicodeEncodeError:
                 return {"enc": "unicodeerror"}
         raise Skip()
+
+    @staticmethod
+    def _view_norm(case):
+        if case.get("target") not in VTARGETS: raise Skip()
+        for op in case["ops"]:
+            if op[0] not in VSHAPES or len(op) != 1 + len(VSHAPES[op[0]]): raise Skip()
+        return case["ops"]
+
+    def _view_impl(self, case):
+        from mitmproxy.test import tutils
+        init = [(uncps(k[1:]), uncps(v[1:])) for k, v in case["init"]]
+        target = case["target"]
+        ops = self._view_norm(case)
+        if target == "holder":
+            class Parent: pass
+            par = Parent(); par.f = tuple(init)
+            def setter(v): par.f = tuple(tuple(x) for x in v)
+            view = lambda: MultiDictView(lambda: par.f, setter)
+        elif target == "multidict":
+            md = MultiDict(init)
+            view = lambda: md
+        else:
+            req = tutils.treq(path=b"/p")
+            req.headers = Headers()
+            if target == "query":
+                req.query = init
+                view = lambda: req.query
+            else:
+                req.cookies = init
+                view = lambda: req.cookies
+        rf = lambda fs: " ".join([str(len(fs))] + [r_text(x) for f in fs for x in (f[0], f[1])])
+        steps = []
+        for op in ops:
+            v = view()
+            o, a = op[0], [x if not isinstance(x, str) else uncps(x[1:]) for x in op[1:]]
+            try:
+                if o == "ga": r = r_list(v.get_all(a[0]))
+                elif o == "gi": r = "val " + r_text(v[a[0]])
+                elif o == "di": del v[a[0]]; r = "none"
+                elif o == "si": v[a[0]] = a[1]; r = "none"
+                elif o == "ad": v.add(a[0], a[1]); r = "none"
+                elif o == "in": v.insert(a[0], a[1], a[2]); r = "none"
+                elif o == "sa": v.set_all(a[0], [uncps(x[1:]) for x in op[2]]); r = "none"
+                elif o == "it": r = r_list(list(v))
+                elif o == "ln": r = "int %d" % len(v)
+            except KeyError:
+                r = "keyerror"
+            except Exception as e:
+                r = "exc:" + type(e).__name__
+            extra = ""
+            if target == "cookies":                     # the parent's state is observable too: the Cookie header values
+                hv = req.headers.get_all("cookie")
+                extra = " H " + " ".join([str(len(hv))] + [r_text(x) for x in hv])
+            steps.append(r + " F " + rf(view().fields) + extra)
+        return steps
+
+    @staticmethod
+    def _view_law(op, R, p, q):
+        """the multimap reading for the classes that share _MultiDict's code: keys compare exactly, lookup gives the
+        first value (not a clause of C35's statement, which is about header collections; same laws, `_kconv = id`)"""
+        if R.startswith("exc:"): return "unexpected exception " + R
+        o = op[0]
+        a = [x if not isinstance(x, str) else uncps(x[1:]) for x in op[1:]]
+        if o in ("ga", "gi", "di", "si", "sa"): k = a[0]; vs = [v for n, v in p if n == k]
+        first = []
+        for n, _ in p:
+            if n not in first: first.append(n)
+        def pure(want):
+            if q != p: return "a query changed the fields"
+            return None if R == want else f"returned {R!r}, an ordered multimap gives {want!r}"
+        if o == "ga": return pure(r_list(vs))
+        if o == "gi": return pure("val " + r_text(vs[0]) if vs else "keyerror")
+        if o == "it": return pure(r_list(first))
+        if o == "ln": return pure("int %d" % len(first))
+        if o == "di":
+            if not vs: return None if (R == "keyerror" and q == p) else f"missing key: returned {R}"
+            return None if (R == "none" and q == [f for f in p if f[0] != k]) else "delete must remove all fields of that key and only those"
+        if o in ("si", "sa"):
+            new = [a[1]] if o == "si" else [uncps(x[1:]) for x in op[2]]
+            if R != "none": return f"returned {R}"
+            if [v for n, v in q if n == k] != new: return "get_all after assignment does not give the assigned values"
+            if [f for f in q if f[0] != k] != [f for f in p if f[0] != k]: return "untouched fields changed"
+            return None
+        if o == "ad": return None if (R == "none" and q == p + [(a[0], a[1])]) else "add did not append"
+        if o == "in":
+            i = a[0]
+            return None if (R == "none" and q == p[:i] + [(a[1], a[2])] + p[i:]) else "insert did not place the field at the requested position"
+        return "unknown op"
 
     @staticmethod
     def _read(lines):
@@ -491,6 +657,22 @@ class Check(PropertyCheck):
             # what the API hands out for stored bytes must denote those bytes again when handed back as a key or value
             return [] if obs["back"] == case["data_hex"] else [f"_always_bytes(_native(b)) = {obs['back']} for b = {case['data_hex']}"]
         if kind == "enc":
+            return []
+        if kind == "ctor":
+            # "All names and values must be bytes" (Headers.__init__ docstring): str in `fields` is refused, never stored
+            bad = any(x.startswith("u") for f in case["fields"] for x in f)
+            r = obs["ctor"]
+            if r.startswith("exc:"): return ["unexpected exception " + r]
+            if bad != (r == "typeerror"): return [f"fields {'with' if bad else 'without'} str: constructor gave {r}"]
+            return []
+        if kind == "view":
+            pf = lambda st: [(untext(t[1 + 2 * i]), untext(t[2 + 2 * i])) for t in [st.partition(" F ")[2].partition(" H ")[0].split(" ")] for i in range(int(t[0]))]
+            P = [(uncps(k[1:]), uncps(v[1:])) for k, v in case["init"]]
+            for idx, (op, st) in enumerate(zip(self._view_norm(case), obs)):
+                Q = pf(st)
+                f = self._view_law(op, st.partition(" F ")[0], P, Q)
+                if f: return [f"{case['target']} step {idx} {op[0]}: {f}"]
+                P = Q
             return []
         # "the observable results match an ordered multimap with case-insensitive names that preserves the spelling
         #  and relative order of untouched fields" — checked law by law against the implementation's own pre-state
@@ -659,6 +841,20 @@ class Check(PropertyCheck):
             return ["nat " + case["data_hex"], "natr " + case["data_hex"]]
         if kind == "enc":
             return ["enc u" + case["cps"]]
+        if kind == "ctor":
+            toks = ["ctor", str(len(case["fields"]))] + [r_text(arg_obj(x, 0)) for f in case["fields"] for x in f]
+            if case.get("kw"):
+                toks += ["kw", str(len(case["kw"]))] + [r_text(arg_obj(y, 1)) for pr in case["kw"] for y in pr]
+            return [" ".join(toks)]
+        if kind == "view":
+            toks = ["viewc" if case["target"] == "cookies" else "view", str(len(case["init"]))] + [x for f in case["init"] for x in f]
+            for op in self._view_norm(case):
+                toks.append(op[0])
+                for c, x in zip(VSHAPES[op[0]], op[1:]):
+                    if c in "kv": toks.append(x)
+                    elif c == "i": toks.append(str(x))
+                    elif c == "V": toks += [str(len(x))] + list(x)
+            return [" ".join(toks)]
         if kind == "rt":
             return [" ".join(["rt", str(len(case["fields"]))] + [x for f in case["fields"] for x in f])]
         if kind == "rd":
@@ -667,10 +863,10 @@ class Check(PropertyCheck):
 
     def model_obs(self, case, replies):
         r = replies[0]
-        if case["kind"] == "seq": return r.split(" ; ") if r != "empty" else []
+        if case["kind"] in ("seq", "view"): return r.split(" ; ") if r != "empty" else []
         if case["kind"] == "str":
             return r if replies[1] == r else {"native": r, "nativeRange": replies[1]}
-        if case["kind"] == "enc": return r
+        if case["kind"] in ("enc", "ctor"): return r
         if case["kind"] == "rt":
             m = re.fullmatch(r"bytes (\S+) lines (\d+)((?: \S+)*) res (.*)", r)
             if not m: return r
@@ -685,9 +881,10 @@ class Check(PropertyCheck):
         return re.search(b"\n\r?\n", total).end() != len(total)
 
     def impl_view(self, case, obs):
-        if case["kind"] == "seq": return obs
+        if case["kind"] in ("seq", "view"): return obs
         if case["kind"] == "str": return obs["native"]
         if case["kind"] == "enc": return obs["enc"]
+        if case["kind"] == "ctor": return obs["ctor"]
         if case["kind"] == "rt":
             if obs["lines"] is None: return {"bytes": obs["bytes"]}
             return obs
@@ -703,6 +900,10 @@ class Check(PropertyCheck):
             if not case["lines"]: return None
         elif case["kind"] == "str":
             if case["data_hex"] == "-": return None
+        elif case["kind"] == "ctor":
+            if not case["fields"] and not case.get("kw"): return None
+        elif case["kind"] == "view":
+            if not any(op[0] in ("si", "sa", "di", "ad", "in") for op in case["ops"]): return None
         elif not case["cps"] or case["cps"] == "-": return None
         return super().classify(case, obs)
 
@@ -723,6 +924,11 @@ class Check(PropertyCheck):
             return ["str:escapes" if ".dc" in "." + obs["native"][1:] else "str:clean"]
         if case["kind"] == "enc":
             return ["enc:" + ("unicodeerror" if obs["enc"] == "unicodeerror" else "ok")]
+        if case["kind"] == "ctor":
+            return ["ctor:" + obs["ctor"].split(" ")[0]]
+        if case["kind"] == "view":
+            return sorted({"view:" + case["target"]} | {"view:" + op[0] + (":keyerror" if st.startswith("keyerror") else "")
+                                                         for op, st in zip(case["ops"], obs)})
         if case["kind"] == "rt":
             fs = [(unhx(n), unhx(v)) for n, v in case["fields"]]
             v = all(valid_field(n, x) for n, x in fs)
